@@ -47,7 +47,7 @@ EXHAUSTIVE = {"quick": True, "thorough": True}
 SAMPLE_EVERY = {"quick": 30000, "thorough": 60000}
 
 KINDS = ["ascope", "sscope", "updated", "dscope"]
-TYPES = ("A", "A2", "R", "G", "U")
+TYPES = ("A", "A2", "R", "G", "U", "F")
 
 
 def _forests(n_max: int, kinds: list[str], supplies: list[int]):
@@ -93,7 +93,7 @@ def programs(tier: str):
                 k += 1
                 yield {"forest": label_forest(shape, [list(a), list(b)]), "order": "nd-first" if k % 2 else "d-first"}
     # value-equal re-supplies and a type whose default construction fails with an ExceptionGroup
-    for sup in (8, 9, 10):
+    for sup in (8, 9, 10, 11, 12):
         for kind in KINDS:
             yield {"forest": [{"l": [kind, sup], "c": []}], "order": "nd-first"}
             for okind in KINDS:
